@@ -322,6 +322,10 @@ def currently_exiting_context(frame: types.FrameType) -> Optional[ExitingContext
             while code[offs] == op["CACHE"] and offs >= 2:
                 offs -= 2
             is_async = True
+        # If the frame is running (we're being called from within __aexit__),
+        # lasti points at the CACHE after SEND on 3.12
+        while code[offs] == op["CACHE"] and offs >= 2:
+            offs -= 2
         if code[offs] == op["SEND"]:
             offs -= 2
             is_async = True
